@@ -26,8 +26,8 @@ BUDGET = {
     "thorough": dict(shards=16, examples=1500),
 }
 
-KINDS = ["lon", "lat", "conn", "grow", "shrink", "ulp", "swap", "lonlat", "extra_node", "extra_face", "format", "nongrid", "same", "copy"]
-NONTRIVIAL = {"lon", "lat", "conn", "swap", "extra_node", "extra_face", "grow", "shrink", "ulp"}
+KINDS = ["lon", "lat", "conn", "grow", "shrink", "ulp", "swap", "lonlat", "extra_node", "extra_face", "format", "nongrid", "same", "copy", "copy_edit", "copy_edit"]
+NONTRIVIAL = {"lon", "lat", "conn", "swap", "extra_node", "extra_face", "grow", "shrink", "ulp", "copy_edit"}
 
 
 @st.composite
@@ -53,12 +53,18 @@ def _case(draw, tier):
         v["sign"] = draw(st.sampled_from([-1, 1]))
     elif kind == "extra_face":
         v["face"] = draw(st.integers(0, nf - 1))
+    elif kind == "copy_edit":
+        # a copy, then one entry of one side's stored arrays edited in place (through .values)
+        v["what"] = draw(st.sampled_from(["conn", "conn", "lon", "lat"]))
+        v["side"] = draw(st.sampled_from(["copy", "orig"]))
+        v["index"] = draw(st.integers(0, nn - 1))
+        v["face"] = draw(st.integers(0, nf - 1))
     elif kind == "nongrid":
         v["obj"] = draw(st.sampled_from(["none", "int", "str", "dataset", "ndarray", "tuple"]))
     # constructor and history: grids from Cartesian face vertices derive lon/lat lazily; derived quantities may
     # have been materialised on one side only before the comparison
     ctor = draw(st.sampled_from(["topology", "topology", "topology", "vertices-xyz", "vertices-latlon"]))
-    if ctor != "topology" and kind not in ("lon", "lat", "lonlat", "same", "copy", "nongrid"):
+    if ctor != "topology" and kind not in ("lon", "lat", "lonlat", "same", "copy", "nongrid", "copy_edit"):
         ctor = "topology"
     if ctor != "topology" and "delta" in v:
         v["delta"] = max(v["delta"], 1e-6)
@@ -190,6 +196,29 @@ def run_case(case, ctx):
         chk("ne_is_negation", r2 is True, f"Grid.__ne__({v['obj']}) returned {r2!r}")
         return fails
 
+    if k == "copy_edit":
+        INT_DTYPE, FILL = build.consts()
+        g2 = g1.copy()
+        chk("copy_equals", (g1 == g2) is True or bool(g1 == g2), "a fresh copy does not equal its source")
+        tgt, oth = (g2, g1) if v["side"] == "copy" else (g1, g2)
+        twin = mk(mesh)
+        if v["what"] == "conn":
+            tab = tgt.face_node_connectivity.values
+            row = tab[v["face"] % tab.shape[0]]
+            cur = int(row[0])
+            tab[v["face"] % tab.shape[0], 0] = next(n for n in range(tgt.n_node + 1) if n != cur and n < tgt.n_node) if tgt.n_node > 1 else cur
+        elif v["what"] == "lon":
+            arr = tgt.node_lon.values
+            arr[v["index"] % len(arr)] += 0.25 if arr[v["index"] % len(arr)] < 100 else -0.25
+        else:
+            arr = tgt.node_lat.values
+            arr[v["index"] % len(arr)] += 0.25 if arr[v["index"] % len(arr)] < 80 else -0.25
+        # the edited side differs from the untouched one, which still equals an independent grid of the same arrays
+        e_to, e_ot = (tgt == oth), (oth == tgt)
+        chk("eq_iff_same", not bool(e_to) and not bool(e_ot), f"after editing one {v['what']} entry of the {v['side']} in place, the copy and the original still compare equal ({e_to!r} / {e_ot!r})")
+        chk("ne_is_negation", bool(tgt != oth) and bool(oth != tgt), f"!= after the in-place edit: {(tgt != oth)!r} / {(oth != tgt)!r}")
+        chk("eq_iff_same", bool(oth == twin) and bool(twin == oth), f"the untouched side no longer equals an independent grid built from the same arrays after the other side's {v['what']} entry was edited")
+        return fails
     if k == "copy":
         g2 = g1.copy()
         expect = True
